@@ -17,6 +17,7 @@ def check(ctx):
     ctx.guard(r088_best_h, ctx)
     ctx.guard(r089_eval_gap, ctx)
     ctx.guard(r0812_precision, ctx)
+    ctx.guard(r0813_callable, ctx)
     ctx.guard(r0810_linprog, ctx)
     ctx.guard(r0811_setup, ctx)
 
@@ -428,6 +429,21 @@ def r088_best_h(ctx):
     ret = r.ret
     ok = ret is not None and ret.op == "tuple" and len(ret.args[0]) == 2 and ret.args[0][0].op == "sub" and ret.args[0][0].args[1] is ret.args[0][1]
     ctx.ob("R08.8", fq, None, ok, "best_h returns (hs[best_idx], best_idx)", construct="best_h return")
+
+
+def r0813_callable(ctx):
+    ctx.rule("R08.13", "the callable h that gamma / error are evaluated on is the stored classifier's own predict: "
+                       "_PredictorAsCallable(c)(X) = c.predict(X)")
+    A = Analysis(ctx, max_depth=1, inline=lambda f_, d_: False)
+    cls = M_LAG + ":_PredictorAsCallable"
+    ri = A.run(cls + ".__init__", cls_ctx=cls)
+    rc = A.run(cls + ".__call__", cls_ctx=cls)
+    stored = ri.final.heap.get((ri.self_term, "_classifier")) if ri.final else None
+    want = A.entry(rc, "self._classifier.predict(X)")
+    ok = stored is ri.params["classifier"] and rc.ret is want
+    ctx.ob("R08.13", rc.func, None, ok, "h(X) is the wrapped classifier's predict(X)" if ok else
+           f"h(X) is {show(rc.ret, maxdepth=4)[:80] if rc.ret is not None else '?'}: errors and constraint values are not those of the stored predictor",
+           construct="predictor as callable")
 
 
 def r0812_precision(ctx):
